@@ -30,7 +30,7 @@ macro_rules! biased {
 }
 
 /// Parameter alphabet (texts; parsed by the real expression parser).
-const PARAMS: [&str; 15] = [
+const PARAMS: [&str; 16] = [
     "1.0",
     "pi/2",
     "1.5707963267948966",
@@ -46,6 +46,8 @@ const PARAMS: [&str; 15] = [
     "-1.0",
     "0.0",
     "2*pi/4",
+    // the next f64 after pi/2: equal to it under any tolerance, different under `Expression::eq`
+    "1.5707963267948968",
 ];
 
 /// Parameter classes are computed INDEPENDENTLY of `Expression::eq`: two expressions are in the same class iff
@@ -852,7 +854,7 @@ fn run(ctx: &mut Ctx) {
     {
         let mut pool = Vec::new();
         for mods in [&[][..], &[D][..], &[D, D][..], &[C][..], &[D, C][..], &[C, D][..]] {
-            for p in [1usize, 2, 14, 3] {
+            for p in [1usize, 2, 14, 3, 15] {
                 for q in [Q::F(0), Q::V("q"), Q::V("r"), Q::P(0)] {
                     pool.push(cal("A", mods, &[p], &[q]));
                 }
@@ -860,7 +862,7 @@ fn run(ctx: &mut Ctx) {
         }
         let mut queries = Vec::new();
         for mods in [&[][..], &[D][..], &[D, D][..], &[D, C][..]] {
-            for p in [1usize, 2, 14, 0] {
+            for p in [1usize, 2, 14, 0, 15] {
                 queries.push(gate("A", mods, &[p], &[Q::F(0)]));
             }
         }
